@@ -65,7 +65,7 @@ K_PEG = [
 ]
 
 TECH = 'contract-based deductive verification: Verus on functions extracted mechanically from /repo each run (trait contracts over a PEG denotation), Kani function contracts / loop-free (complete) harnesses; guards on every run: expected-obligation lists, shape profiles, a vacuity pass; bounded native exhaustive enumerations and Kani-bounded harnesses are labelled stand-ins and never counted as proved'
-NOTE_COMMON = ('Trusts Verus/Z3, Kani/CBMC, the extractor and rewrite table R1-R10 (diff emitted per run; R1 erases the error tracker, R9 turns array::from_fn into its loop, R10 instantiates a generic iterator / range parameter per call-site type), '
+NOTE_COMMON = ('Trusts Verus/Z3, Kani/CBMC, the extractor and rewrite table R1-R11 (diff emitted per run; R1 erases the error tracker, R9 turns array::from_fn into its loop, R10 instantiates a generic iterator / range parameter per call-site type, R11 removes a `continue`), '
                'the model of pest::Stack (cross-checked against the real type by a bounded native enumeration; false for nested snapshots: known finding D1), vstd specs. '
                'Generator/derive crates are outside the verified set. ')
 
@@ -159,8 +159,8 @@ PROPS = {
     },
     'C08': {
         'level': 'proof',
-        'level_text': 'Verus proves the default methods of trait Input (match_string, match_insensitive, match_range, match_char_by, next, at_start, at_end, span, as_position) and the three implementations (Position, SubInput1, SubInput2: byte_offset, input, get, cursor, start, end) and the AsInput conversions against contracts in which result and advance are functions of rest(ctx, off) = bytes[off..end] alone, with SOI/EOI decided by off == start / off == end (the SOI and EOI node types are proved against exactly that in unit nodes, also when a cursor is converted with as_position(), whose result is judged against the bounds 0 and len of the whole string); so nothing at or beyond the span end can influence a matcher. Input::skip and chars are proved too (vstd Chars model; UTF-8 boundary lemmas proved from vstd definitions). Only skip_until has its contract assumed in Verus (`continue` in a for loop is unsupported) and is checked by bounded native enumeration; the end-to-end statement (Span/Position vs fresh copy on generated rules) is a bounded stand-in.',
-        'level_note': NOTE_COMMON + 'Assumes the specs of the std shims (R3), the contract of skip_until, and that the length of a str fits usize; ptr::eq on inputs modelled as value equality. The lifting from per-matcher contracts to every node type is an argument, not a proved lemma.',
+        'level_text': 'Verus proves the default methods of trait Input (match_string, match_insensitive, match_range, match_char_by, next, at_start, at_end, span, as_position) and the three implementations (Position, SubInput1, SubInput2: byte_offset, input, get, cursor, start, end) and the AsInput conversions against contracts in which result and advance are functions of rest(ctx, off) = bytes[off..end] alone, with SOI/EOI decided by off == start / off == end (the SOI and EOI node types are proved against exactly that in unit nodes, also when a cursor is converted with as_position(), whose result is judged against the bounds 0 and len of the whole string); so nothing at or beyond the span end can influence a matcher. Input::skip and chars are proved too (vstd Chars model; UTF-8 boundary lemmas proved from vstd definitions), and so is skip_until (after rewrite R11, which removes the `continue`): it stops at the least offset, on a character boundary, at which a needle is a prefix of the REMAINING input bytes[k..end], else at end — the obligation that fails for the defect D2 repaired in /repo. The end-to-end statement (Span/Position vs fresh copy on generated rules) is a bounded stand-in.',
+        'level_note': NOTE_COMMON + 'Assumes the specs of the std shims (R3) and that the length of a str fits usize; ptr::eq on inputs modelled as value equality. The lifting from per-matcher contracts to every node type is an argument, not a proved lemma.',
         'technique': TECH,
         'verus': ['input', 'leaf', 'nodes'],
         'expanded': False,
@@ -358,7 +358,7 @@ PROPS = {
 COMMON_TRUSTED = [
     'Verus 0.2026.09.13 + Z3 (SMT encoding, vstd specifications of core types)',
     'Kani 0.68 / CBMC 6.11 (for the harnesses listed under kani_*)',
-    'extractor /verif/lib/rsx.py + vgen.py and the rewrite table R1-R10 (diff written to the run directory on every run)',
+    'extractor /verif/lib/rsx.py + vgen.py and the rewrite table R1-R11 (diff written to the run directory on every run)',
     'rustc macro expansion (-Zunpretty=expanded) for macro-defined items',
     'machine integers are modelled exactly by both tools (no mathematical-integer abstraction of executable code)',
 ]
